@@ -1,0 +1,82 @@
+//go:build verif
+
+// Contracts for gvc (/verif). Comment-only: this file adds no declarations.
+
+package hashmap
+
+// C07: maps are immutable dictionaries, including under hash collisions.
+//
+// Deductive part (bit-vector encoding, all 2^32 bitmaps / hashes): the bitmap
+// layer of the hash trie - popCount is the number of set bits, bitpos is a
+// single bit below 2^32, index(bitmap, bit) is the rank of that bit and is a
+// valid position in an entries slice of popCount(bitmap) elements; setting or
+// clearing one bit changes the population count by exactly one (so the
+// node invariant len(entries) == popCount(bitmap) is maintained by the entry
+// insertion and removal helpers, whose slice arithmetic is proved in range).
+// The dictionary semantics of the whole trie is a bounded stand-in.
+
+//@ spec fn b(u uint32, k uint32) uint32 = (u >> k) & 1
+//@ spec fn pc32(u uint32) uint32 = b(u,0)+b(u,1)+b(u,2)+b(u,3)+b(u,4)+b(u,5)+b(u,6)+b(u,7)+b(u,8)+b(u,9)+b(u,10)+b(u,11)+b(u,12)+b(u,13)+b(u,14)+b(u,15)+b(u,16)+b(u,17)+b(u,18)+b(u,19)+b(u,20)+b(u,21)+b(u,22)+b(u,23)+b(u,24)+b(u,25)+b(u,26)+b(u,27)+b(u,28)+b(u,29)+b(u,30)+b(u,31)
+//@ spec fn onebit(x uint32) bool = x != 0 && (x & (x - 1)) == 0
+
+//@ func popCount
+//@   props C07
+//@   mode bv
+//@   pure
+//@   ensures result == pc32(u)
+//@   ensures result <= 32
+
+//@ func chunk
+//@   props C07
+//@   mode bv
+//@   pure
+//@   ensures result < 32
+//@   ensures shift < 32 ==> result == ((hash >> shift) & 31)
+
+//@ func bitpos
+//@   props C07
+//@   mode bv
+//@   pure
+//@   ensures onebit(result)
+
+//@ func index
+//@   props C07
+//@   mode bv
+//@   pure
+//@   requires onebit(bit)
+//@   ensures result == pc32(bitmap & (bit - 1))
+//@   ensures result <= pc32(bitmap)
+//@   ensures (bitmap & bit) != 0 ==> result < pc32(bitmap)
+
+//@ lemma popcount_set_bit(bm uint32, bit uint32)
+//@   props C07
+//@   mode bv
+//@   requires onebit(bit) && (bm & bit) == 0
+//@   ensures pc32(bm | bit) == pc32(bm) + 1
+//@   ensures pc32(bm & (bit - 1)) == pc32((bm | bit) & (bit - 1))
+
+//@ lemma popcount_clear_bit(bm uint32, bit uint32)
+//@   props C07
+//@   mode bv
+//@   requires onebit(bit) && (bm & bit) != 0
+//@   ensures pc32(bm ^ bit) + 1 == pc32(bm)
+//@   ensures (bm ^ bit) == 0 <==> bm == bit
+
+//@ lemma popcount_full(bm uint32)
+//@   props C07
+//@   mode bv
+//@   ensures pc32(bm) <= 32
+//@   ensures pc32(bm) == 0 <==> bm == 0
+
+// entry-slice helpers: all slice bounds in range, result length as expected
+//@ func withoutEntry
+//@   props C07
+//@   requires len(entries) >= 1 && idx < len(entries)
+//@   ensures len(result) == len(entries) - 1
+//@   ensures fresh(result)
+
+//@ func replaceEntry
+//@   props C07
+//@   requires i < len(entries)
+//@   ensures len(result) == len(entries)
+//@   ensures fresh(result)
